@@ -146,10 +146,16 @@ func decodeStruct(p Paragraph, into reflect.Value) error {
 		field := into.Field(i)
 		fieldType := into.Type().Field(i)
 
-		if field.Type().Kind() == reflect.Struct {
-			err := decodeStruct(p, field)
-			if err != nil {
-				return err
+		if field.Type().Kind() == reflect.Struct && fieldType.Type != paragraphType {
+			/* Nested plain structs are filled from the same Paragraph.
+			 * Types with their own UnmarshalControl, and the embedded
+			 * Paragraph itself, are not plain structs: their Go fields
+			 * (Epoch, Revision, Values, Order ...) are no control fields. */
+			if _, custom := field.Addr().Interface().(Unmarshallable); !custom {
+				err := decodeStruct(p, field)
+				if err != nil {
+					return err
+				}
 			}
 		}
 
